@@ -57,8 +57,6 @@ Definition spec_origin_ok (k:hcase) : bool :=
       end
   end.
 
-Definition first (l:list bytes) : bytes := match l with x :: _ => x | [] => [] end.
-
 Definition spec_valid (k:hcase) : bool :=
   let q := h_req k in
   beq (q_method q) s_get && has_token (q_connection q) s_upgrade && has_token (q_upgrade q) s_websocket
@@ -68,22 +66,8 @@ Definition all_wf (k:hcase) : bool :=
   let q := h_req k in
   forallb line_wf (q_connection q) && forallb line_wf (q_upgrade q) && forallb line_wf (q_version q).
 
-(* RFC 7230 list splitting that knows quoted strings: a comma inside "..." (with backslash
-   escapes) does not separate elements *)
-Fixpoint split_list_q (inq esc:bool) (cur:bytes) (s:bytes) : list bytes :=
-  match s with
-  | [] => [rev' cur]
-  | b :: r =>
-      if esc then split_list_q inq false (b :: cur) r
-      else if inq then
-        if b =? 92 then split_list_q true true (b :: cur) r
-        else if b =? 34 then split_list_q false false (b :: cur) r
-        else split_list_q true false (b :: cur) r
-      else if b =? 34 then split_list_q true false (b :: cur) r
-      else if b =? 44 then rev' cur :: split_list_q false false [] r
-      else split_list_q false false (b :: cur) r
-  end.
-
+(* RFC 7230 list splitting that knows quoted strings (split_list_q) and the offer predicate
+   offers_pmd are in Spec/Handshake.v *)
 Definition app_ext_header (k:hcase) : bool :=
   match h_rh k with Some h => hhas k_extensions h | None => false end.
 
@@ -137,7 +121,7 @@ Definition spec (k:hcase) (obs:tape) : option (N * tape) :=
             if sub_bad then Some (110, [])
             else
               (* permessage-deflate announced only if enabled and offered *)
-              let offered := existsb (fun l => existsb (fun e => beq (trim_ows (first (split_on 59 [] e))) permessage_deflate) (split_list_q false false [] l)) (q_extensions (h_req k)) in
+              let offered := offers_pmd (q_extensions (h_req k)) in
               if Nat.ltb 0 next && negb (u_compression (h_up k) && offered) then Some (111, [])
               else None
       end
